@@ -191,6 +191,8 @@ def run(repo, chk):
                             '(interpreted for the array at every position) - shared with C01.A1')
         from . import c01 as _c01
         _c01.entry_binding(repo, Remap(chk, {'C01.A1': lambda c: None if c.endswith('::entry specialisation') else 'C04.A11'}), gf)
+        # accessors of another function's frame must not survive into the next function (they point far outside its frame)
+        _c01.fresh_function_state(repo, Remap(chk, {'C01.S1': 'C04.A11'}), gf)
 
     # ---------------- A4 scale agreement ---------------------------------------------------
     _scale(repo, chk, gf)
